@@ -15,15 +15,18 @@ META = dict(
 def suites(tier):
     q = tier == "quick"
     jobs = []
+    shapes = [(2, 1, 1)] if q else [(2, 1, 2), (1, 2, 2), (3, 1, 1)]
     for cfg in product(fuzzy=[0, 1], case=[0, 1, 2], norm=[0, 1]):
-        cfg.update(sets=2, alts=2 if not q else 1, len=2 if not q else 1)
-        jobs.append(dict(id=jid("parse", cfg), func="zzH_C01_parse", cfg=cfg))
+        for sets, alts, ln in shapes:
+            c2 = dict(cfg, sets=sets, alts=alts, len=ln)
+            jobs.append(dict(id=jid("parse", c2), func="zzH_C01_parse", cfg=c2))
     if q:
         cfg = dict(fuzzy=1, case=0, norm=1, sets=1, alts=2, len=2)
         jobs.append(dict(id=jid("parse", cfg), func="zzH_C01_parse", cfg=cfg))
     for cfg in product(fuzzy=[0, 1], case=[0], norm=[0, 1]):
-        cfg.update(sets=1 if q else 2, alts=2 if not q else 1, len=1 if q else 2, nmax=2 if q else 3)
-        jobs.append(dict(id=jid("glue", cfg), func="zzH_C01_glue", cfg=cfg))
+        for sets, alts, ln, nmax in ([(1, 1, 1, 2)] if q else [(2, 1, 1, 2), (1, 2, 1, 3), (1, 1, 2, 3)]):
+            c2 = dict(cfg, sets=sets, alts=alts, len=ln, nmax=nmax)
+            jobs.append(dict(id=jid("glue", c2), func="zzH_C01_glue", cfg=c2))
     for cfg in product(fuzzy=[0, 1], case=[0, 1, 2], norm=[0, 1]):
         cfg.update(qmax=2, nmax=2 if q else 3)
         jobs.append(dict(id=jid("noext", cfg), func="zzH_C01_noext", cfg=cfg))
